@@ -62,7 +62,5 @@ MANIFEST = dict(
                 "obligation chains are real executions; C10_ic3_block_sem: blocking for any frame representation, the side condition of the "
                 "proposed repair). Tie to /repo: the real patronus::mc::pdr is run against z3 and cvc5 (several seeds, "
                 "generalisation on/off) on generated systems and its verdict and witnesses are compared with reach_spec on every run."),
-    level_note=("pdr.rs itself is modelled at the level of its verdict and abstract logic, not verified line by line; solver answer "
-                "choices are sampled. Known findings: PDR is unsound / errors when an init expression reads an input (repair proposed in "
-                "patches/0001-fix-pdr-init-reads-input.diff); Err inherited from the C04 use-before-declare finding through the BMC fallback."),
+    level_note="Trusted: Coq kernel; the solver, the SMT encoding behind each query and the BMC fallback are ORACLES (assumed truthful in the theorems; recorded answers are replayed in the tie); termination of block_cube's loop and of the main loop is fuel-conditional. Repaired in /repo through this check: PDR unsound / Err when an init expression reads an input (a4b99b1). Open finding: Err inherited from the encoding on cyclic init dependencies.",
 )
